@@ -3,7 +3,7 @@
    that pass the rule table, allocation bound, QUIC gate facts. *)
 From Coq Require Import List NArith ZArith Bool Arith Lia.
 From Coq.Strings Require Import Byte.
-From L4.gen Require Import Consts.
+From L4.gen Require Import Consts Shape.
 From L4.model Require Import GoBase MatchDns.
 From L4.proofs Require Import GoBaseProofs.
 Import ListNotations.
@@ -15,6 +15,16 @@ Lemma read_full_1_app_cons (r s : list byte) : s <> [] -> exists x, read_full 1 
 Proof.
   intro Hs. destruct (read_full 1 (r ++ s)) eqn:E; [eexists; reflexivity|].
   apply read_full_none in E. rewrite app_length in E. destruct s; [contradiction|cbn in E; lia].
+Qed.
+
+(* the bounds the source compares message sizes with are the protocol's: a DNS message may be up to 65535 bytes on either
+   transport (EDNS0 lifts the 512-byte limit of RFC 1035 for UDP; the matcher cannot know the negotiated size) *)
+Lemma dns_limits_src : l4dns_tcp_size_limit = 65535%Z /\ l4dns_udp_size_limit = 65535%Z.
+Proof. split; reflexivity. Qed.
+Lemma dns_limits_ok : dns_tcp_limit = dns_max_msg /\ dns_udp_limit = dns_max_msg.
+Proof.
+  unfold dns_tcp_limit, dns_udp_limit, dns_max_msg. destruct dns_limits_src as [A B]. rewrite A, B.
+  rewrite <- Z_N_nat. change (Z.to_N 65535) with 65535%N. split; reflexivity.
 Qed.
 
 Section DnsProofs.
@@ -67,7 +77,7 @@ Section DnsProofs.
     exists lb buf, w = lb ++ buf /\ length lb = 2%nat /\ length buf = N.to_nat (be_N lb) /\
                    (dns_hdr <= length buf <= dns_max_msg)%nat /\ dns_decide unpack re_match c buf (length buf) = Yes.
   Proof.
-    unfold dns_match. intro H.
+    unfold dns_match. rewrite (proj1 dns_limits_ok). intro H.
     destruct (read_full 2 w) as [[lb r1]|] eqn:E1; [|discriminate].
     destruct ((_ <? _)%nat || (_ <? _)%nat) eqn:Eg; [discriminate|].
     destruct (read_full (N.to_nat (be_N lb)) r1) as [[buf r2]|] eqn:E2; [|discriminate].
@@ -179,7 +189,7 @@ Section DnsProofs.
     length lb = 2%nat -> be_N lb = N.of_nat (length msg) ->
     (dmatch c true (lb ++ msg) = Yes <-> (dns_hdr <= length msg <= dns_max_msg)%nat /\ dns_ref c msg).
   Proof.
-    intros Hl Hb. unfold dns_match. rewrite <- Hl at 1. rewrite read_full_exact. rewrite Hb, Nat2N.id.
+    intros Hl Hb. unfold dns_match. rewrite (proj1 dns_limits_ok). rewrite <- Hl at 1. rewrite read_full_exact. rewrite Hb, Nat2N.id.
     destruct ((length msg <? dns_hdr)%nat || (dns_max_msg <? length msg)%nat) eqn:Eg.
     - split; [discriminate|]. intros [[G1 G2] _]. apply orb_true_iff in Eg. destruct Eg as [G|G]; apply Nat.ltb_lt in G; lia.
     - apply orb_false_iff in Eg. destruct Eg as [G1 G2]. apply Nat.ltb_ge in G1. apply Nat.ltb_ge in G2.
@@ -191,7 +201,7 @@ Section DnsProofs.
   Theorem dns_udp_match_iff_ref c msg :
     (dmatch c false msg = Yes <-> (dns_hdr <= length msg <= dns_max_msg)%nat /\ dns_ref c msg).
   Proof.
-    unfold dns_match, read_at_least.
+    unfold dns_match, read_at_least. rewrite (proj2 dns_limits_ok).
     destruct (Nat.ltb_spec (length msg) dns_hdr) as [G1|G1]; [split; [discriminate|intros [[? ?] _]; lia]|].
     destruct (Nat.ltb_spec dns_max_msg (length msg)) as [G2|G2]; [split; [discriminate|intros [[? ?] _]; lia]|].
     replace (u16 (length msg)) with (length msg).
